@@ -3,7 +3,7 @@
    evaluated on every explored history by the check (harness ledger + the
    destroyed values predicted by the specification). *)
 From SV Require Import Base.ListX Store.Raw Store.RawRefine Store.CleanProps Store.Masked Store.StoreInv Store.Bag Store.Ledger
-  Store.ClearLedger Store.DeadHandle
+  Store.ClearLedger Store.DefaultLedger Store.DeadHandle
   World.Env World.Join World.SopLedger World.WorldLedger World.JoinLedger World.HistoryLedger World.WorldSpec World.World World.Simulation World.NoStuck.
 From Coq Require Import Sorting.Permutation.
 
@@ -150,6 +150,43 @@ Theorem C08_every_storage_operation_conserves : forall ms m av ent so c, LInvS m
   exists m', LInvS ms' m' /\ conserves m m' (sop_ins ms av ent so) (sop_rets so out) c c'.
 Proof. exact sop_conserves. Qed.
 
+(* ---- the default-filled kind (DefaultVecStorage keeps a value in every slot; gaps and vacated slots hold defaults it
+   makes itself): per raw operation, the cells afterwards together with what was handed back and what was destroyed are
+   the cells before together with what was moved in and the defaults the operation made ---- *)
+Theorem C08_default_filled_insert_conserves : forall cells id v c, full cells ->
+  match u_insert (RDefault cells) id v c with
+  | (RDefault cells', c') =>
+      cx_stuck c' = cx_stuck c /\ full cells' /\
+      exists d, cx_drops c' = d ++ cx_drops c /\ Permutation (uids cells' ++ d) (uids cells ++ fst v :: minted c c')
+  | _ => False
+  end.
+Proof. exact default_insert_conserves. Qed.
+
+Theorem C08_default_filled_remove_conserves : forall cells id c, full cells -> (id < vlen cells)%N ->
+  match u_remove (RDefault cells) id c with
+  | (RDefault cells', t, c') =>
+      cx_stuck c' = cx_stuck c /\ cx_drops c' = cx_drops c /\ full cells' /\ pv_get cells id = Some t /\
+      Permutation (uids cells' ++ [fst t]) (uids cells ++ minted c c')
+  | _ => False
+  end.
+Proof. exact default_remove_conserves. Qed.
+
+Theorem C08_default_filled_clear_destroys_every_cell_once : forall cells mask c,
+  match u_clean (RDefault cells) mask c with
+  | (RDefault cells', c') =>
+      uids cells' = [] /\ cx_stuck c' = cx_stuck c /\ cx_mints c' = cx_mints c /\
+      exists d, cx_drops c' = d ++ cx_drops c /\ Permutation d (uids cells)
+  | _ => False
+  end.
+Proof. exact default_clean_conserves. Qed.
+
+Example C08_default_filled_nonvacuous :
+  let '(r1, c1) := u_insert (RDefault pv_empty) 3 (7, 70%Z) cx0 in
+  let '(r2, t, c2) := u_remove r1 3 c1 in
+  let '(r3, c3) := u_clean r2 [] c2 in
+  cx_mints c1 = 3%N /\ t = (7, 70%Z) /\ cx_mints c2 = 4%N /\ cx_drops c3 = [default_uid; default_uid; default_uid; default_uid].
+Proof. vm_compute. repeat split; reflexivity. Qed.
+
 (* ---- whole histories, on the specification world (every storage the plain map; the implementation's results and
    destroyed values are compared with it on every explored history): for every history (joins included:
    what a join hands out for good are the values its drain members removed) in which components are registered
@@ -227,3 +264,6 @@ Print Assumptions C08_every_storage_operation_conserves.
 Print Assumptions C08_a_join_hands_out_exactly_what_it_drained.
 Print Assumptions C08_history_conserves.
 Print Assumptions C08_everything_handed_back_or_destroyed_exactly_once.
+Print Assumptions C08_default_filled_insert_conserves.
+Print Assumptions C08_default_filled_remove_conserves.
+Print Assumptions C08_default_filled_clear_destroys_every_cell_once.
